@@ -54,15 +54,21 @@ TNext(Upd(_, _)) == Consume(Upd) \/ Finish
 \* result with the one recorded sequentially and reports the count.  A pure function of its arguments gives the
 \* same answer whatever else runs at the same time and whatever ran before (hidden shared scratch state, "last
 \* value" hints and pooled buffers do not): the calls are replayed (a) sequentially in other orders (workers = 1)
-\* and (b) from 8 goroutines at once.
+\* and (b) from 8 goroutines at once.  (c) workers = 0: byte slices the library RETURNED are the caller's; they are read
+\* again at the end of the run and must still hold what they held when they were returned.
 ConcurrentReplayVerdict(e) ==
   IF e.mismatches = 0 THEN <<>>
-  ELSE <<IF e.workers = 1 THEN "result-depends-on-earlier-calls" ELSE "result-differs-under-concurrent-use", e.first.sequential, e.first.concurrent>>
+  ELSE <<IF e.workers = 0 THEN "returned-memory-changed-by-later-call"
+         ELSE IF e.workers = 1 THEN "result-depends-on-earlier-calls" ELSE "result-differs-under-concurrent-use", e.first.sequential, e.first.concurrent>>
 
 \* the event consumed by the step that led to the current state
 Judge(Verdict(_, _, _)) ==
   (trI > 1 /\ trI <= Len(Trace[trH].ev) + 1) =>
      LET v == IF Trace[trH].ev[trI - 1].op = "ConcurrentReplay" THEN ConcurrentReplayVerdict(Trace[trH].ev[trI - 1])
+              \* no call may write into the spare capacity behind a byte slice it was given (every argument slice sits in
+              \* a larger array holding a pattern; the harness reports the first argument whose pattern changed)
+              ELSE IF "sparemod" \in DOMAIN Trace[trH].ev[trI - 1]
+                   THEN <<"argument-memory-modified", "spare capacity untouched", Trace[trH].ev[trI - 1].sparemod>>
               ELSE Verdict(trP, Trace[trH].ev[trI - 1], trS)
      IN v = <<>> \/ CSVWrite("%1$s", <<ToJson([h |-> Trace[trH].h, i |-> trI - 1, v |-> v])>>, IOEnv.VOUT)
 
